@@ -159,6 +159,55 @@ func suiteC02(s *Suite, rng *Rng, tier string) {
 		check("replay-in-other-session", sess.Pks, other.Context, other.Nonce, other.IsSig, sess.List, true, false)
 		// key list length mismatch
 		check("fewer-keys", sess.Pks[:n-1], sess.Context, sess.Nonce, sess.IsSig, sess.List, true, false)
+		// the same proof objects verified again and again under changing tuples: whatever an earlier verification left in
+		// the objects (cached structures, filled-in fields) must not carry a verdict over to another tuple
+		{
+			obj := cloneList(sess.List)
+			again := func(kind string, pks []*gabikeys.PublicKey, ctx, nonce *gbig.Int, issig bool, changed bool) {
+				_, acc, amb := verifyCase(s, "reused-objects:"+kind, false, pks, ctx, nonce, issig, nil, obj)
+				if amb {
+					return
+				}
+				s.Nontrivial["reused"+kind+fmt.Sprint(round)] = true
+				if changed && acc {
+					s.Violate("C02:verified-object-accepted-in-other-session", "proof objects that had been verified before are accepted under a changed tuple: "+kind, L{kind, len(obj)})
+				}
+				if !changed && !acc {
+					s.Violate("C02:verified-object-rejected-later", "proof objects verify the first time but not when verified again: "+kind, L{kind, len(obj)})
+				}
+			}
+			again("first", sess.Pks, sess.Context, sess.Nonce, sess.IsSig, false)
+			for i := 0; i < n; i++ {
+				for _, k := range keys[:3] {
+					if k.Pk == sess.Pks[i] {
+						continue
+					}
+					pks := append([]*gabikeys.PublicKey{}, sess.Pks...)
+					pks[i] = k.Pk
+					again("key-substitution", pks, sess.Context, sess.Nonce, sess.IsSig, true)
+					break
+				}
+			}
+			again("nonce-bit", sess.Pks, sess.Context, flipBit(sess.Nonce, rng.Intn(80)), sess.IsSig, true)
+			again("flag", sess.Pks, sess.Context, sess.Nonce, !sess.IsSig, true)
+			again("unchanged-again", sess.Pks, sess.Context, sess.Nonce, sess.IsSig, false)
+			// a disclosed value changed in place, then restored
+			for _, p := range obj {
+				pd, ok := p.(*gabi.ProofD)
+				if !ok || len(pd.ADisclosed) == 0 {
+					continue
+				}
+				for i, v := range pd.ADisclosed {
+					orig := cp(v)
+					pd.ADisclosed[i] = new(gbig.Int).Add(v, bi(1))
+					again("disclosed-value-changed-in-place", sess.Pks, sess.Context, sess.Nonce, sess.IsSig, true)
+					pd.ADisclosed[i] = orig
+					again("disclosed-value-restored", sess.Pks, sess.Context, sess.Nonce, sess.IsSig, false)
+					break
+				}
+				break
+			}
+		}
 	}
 	s.Notes["rule"] = "lists of 1..4 proofs mixing disclosure and issuance builders over 3 toy keys (+1024-bit), with/without " +
 		"non-revocation and range parts; per list: one-bit and random changes of context and nonce, swapped, flag flipped, " +
